@@ -209,8 +209,12 @@ def run_one(mid):
             return mid, {'error': 'patch does not apply: ' + r.stdout[-300:]}
         res = {}
         for p in props():
-            c = subprocess.run(['python3-vt', os.path.join(VERIF, 'bin', 'check.py'), p, '--root', tmp, '--no-evidence', '--json'],
-                               stdout=subprocess.PIPE, stderr=subprocess.PIPE, text=True)
+            try:
+                c = subprocess.run(['python3-vt', os.path.join(VERIF, 'bin', 'check.py'), p, '--root', tmp, '--no-evidence', '--json'],
+                                   stdout=subprocess.PIPE, stderr=subprocess.PIPE, text=True, timeout=900)
+            except subprocess.TimeoutExpired:
+                res[p] = {'code': 2, 'violations': [], 'undecided': [{'rule': 'engine', 'instance': 'timeout', 'reason': 'check did not finish within 900 s'}]}
+                continue
             try:
                 out = json.loads(c.stdout.strip().splitlines()[-1])
             except Exception:
